@@ -158,6 +158,8 @@ def run_case(ck, case, reqs, pending):
     if used != [e for e in internal if e not in excl_want]:
         ck.fail("an interface is excluded exactly when both of its end junctions are flagged; the rest keep their order",
                 f"used {len(used)} internal {len(internal)} excluded-by-rule {len(excl_want)}", case)
+        ck.case(case)
+        return sc               # the restricted system is not the one the rule defines: nothing further to compare
     # ---------------- solve
     skw = {}
     if case["rhs"] == "velocity":
@@ -193,6 +195,8 @@ def run_case(ck, case, reqs, pending):
             z = rec["xres_raw"]
             if len(kept) != A.shape[1] or np.max(np.abs(np.array(kept) - z[:A.shape[1]])) > 0:
                 ck.fail("every other position holds the solution of the restricted system", "kept positions differ from the solver output", case)
+                ck.case(case)
+                return sc
             # independent solve of the restricted augmented problem
             b0 = rec["b"][:A.shape[0]]
             n = A.shape[1]
